@@ -99,7 +99,7 @@ def _adjoint_path(res, cfg, facts0, run, shapes, sub, none, tau, interior_fn, ma
         res.status = 'error'; res.trace = 'backward outcome differs: tape model %r, real autograd %r' % (bo[:3], rgo[:3]); return None
     if bo[0] == 'raise':
         res.status = 'violation'
-        res.violations.append(dict(what='backward raises %s: %s' % (bo[1], bo[2][:100]), facts=dict(facts0, interior=True, nograd=False), replay=dict(kind='raise'), reproduced=True)); return None
+        res.violations.append(dict(what='backward raises %s: %s' % (bo[1], bo[2][:100]), facts=dict(facts0, interior=False, nograd=False, raises=True), replay=dict(kind='raise'), reproduced=True)); return None
     acc = bo[1]
     env = P.AtomEnv()
     for gi, g in zip(cids, gv):
